@@ -485,6 +485,8 @@ class Executor(object):
             raise Unsupported('membership in optional value')
         if a.ty == 'str' and a.t is not None:
             a = SV('H', a.t)
+        if b.ty == 'constset' and a.ty == 'bool':
+            return z3.Or([a.t == z3.BoolVal(bool(v)) for v in b.x if v in (0, 1)] or [z3.BoolVal(False)])
         if a.ty == 'H':
             if b.ty in ('set', 'list'):
                 return h.set_of(b.t)[a.t]
@@ -1051,6 +1053,11 @@ class Executor(object):
                 lc2 = LoopCtx(self.ctx, p2, entry_heap, entry_env, seen2, coll, p2.ghosts)
                 for name, f in invf(lc2):
                     self.oblige('%s:%s:preserved' % (tag, name), p2, f, ('invariant',), st.lineno)
+                if lt is not None:
+                    # components the loop is declared not to touch must be the same arrays after the body
+                    for comp_ in hp.COMPONENTS:
+                        if comp_ not in lt and not z3.eq(p2.heap[comp_], hv.heap[comp_]):
+                            self.oblige('%s:declared:untouched:%s' % (tag, comp_), p2, p2.heap[comp_] == hv.heap[comp_], ('frame',), st.lineno)
                 if coll is not None and coll.src is not None:
                     comp, ref = coll.src
                     self.oblige('%s:iterated_container_unchanged' % tag, p2,
